@@ -281,6 +281,19 @@ func Gen(w *bufio.Writer, seed uint64, tier string, prop string) {
 				fmt.Fprintf(w, "CHTTP bomb %s %d\n", wc, n)
 			}
 		}
+		// the signers that buffer their input: sizes around their limits and a stream that never ends
+		for _, sgn := range []struct {
+			name string
+			max  int
+		}{{"appmanifest", 64 << 20}, {"cat", 256 << 20}} {
+			ns := []string{"0", "1", "1000", fmt.Sprint(sgn.max + 1), "inf"}
+			if thorough || sgn.name == "appmanifest" {
+				ns = append(ns, fmt.Sprint(sgn.max), fmt.Sprint(sgn.max+2))
+			}
+			for _, n := range ns {
+				fmt.Fprintf(w, "CHTTP sbuf %s %s\n", sgn.name, n)
+			}
+		}
 		// malformed streams against the real server: every cut class, wrong coding, junk
 		for _, wc := range []string{"gz", "sn"} {
 			for _, lens := range [][]int{{}, {1}, {65536, 9}, {70, 0, 65536}} {
